@@ -27,6 +27,10 @@ BENIGN = {
     "benign_B7": ["C12", "C13", "C18", "C19"],
     "benign_B4": ["C01", "C15", "C16", "C17", "C19", "C11"],
     "benign_B8": ["C01", "C15", "C16", "C17", "C19", "C11"],
+    "benign_B9": ["C19", "C11", "C02", "C03", "C04", "C05"],
+    "benign_B10": ["C01", "C16", "C17", "C11", "C12", "C15", "C19"],
+    "benign_B11": ["C12", "C15", "C16", "C13", "C18", "C19", "C01"],
+    "benign_B12": ["C05", "C06", "C07", "C08", "C09", "C10", "C11", "C02", "C03", "C04"],
 }
 # seeds that are, correctly, not reported (they do not break the property on its domain)
 EXPECT_QUIET = {"C13e"}
